@@ -15,6 +15,7 @@ Main entry points:
 from __future__ import annotations
 
 import copy
+import re
 
 from hypothesis import strategies as st
 
@@ -81,6 +82,7 @@ DEFAULT_PROFILE = {
     "functions": True,
     "ninputs": 3,
     "array_intrinsics": True,
+    "neg_bounds": False,       # negative lower bounds (UnsupportedFortranType)
 }
 
 
@@ -99,7 +101,8 @@ ARRAY_POOL = [
     Var("b", "real", ((0, 7),)),
     Var("c", "real", ((1, 6), (1, 5))),
     Var("c2", "real", ((1, 6), (1, 5))),
-    Var("d", "real", ((-1, 4), (1, 3))),
+    Var("d", "real", ((0, 5), (2, 4))),
+    Var("dn", "real", ((-1, 4), (1, 3))),    # only with profile neg_bounds
     Var("e3", "real", ((1, 3), (1, 3), (1, 2))),
     Var("ib", "int", ((1, 6),)),
     Var("lm", "log", ((1, 6),)),
@@ -289,6 +292,9 @@ class Gen:
         self.while_counter = 0
         self.extra_locals = []
         self.depth = 0
+        # loop variables are only visible (readable) inside their loop
+        self.hidden_loopvars = {}
+        self.loop_kinds = []
 
     # ---- primitive draws ---------------------------------------------
     def int(self, lo, hi):
@@ -296,6 +302,8 @@ class Gen:
 
     def pick(self, seq):
         seq = list(seq)
+        if not seq:
+            raise NoFit()
         return seq[self.int(0, len(seq) - 1)]
 
     def flip(self, num=1, den=2):
@@ -688,7 +696,7 @@ class Gen:
         if self.depth >= self.prof["max_depth"] or self.budget <= 0:
             for k in ("do", "dowhile", "if", "select", "where"):
                 kinds[k] = 0
-        if not self.loop_stack and not self.while_depth():
+        if not self.loop_kinds:
             kinds["exitcycle"] = 0
         if self.in_helper or not [h for h in self.helpers
                                   if not h.is_function]:
@@ -806,18 +814,20 @@ class Gen:
 
     def s_do(self):
         name = self.free_loopvars.pop(0)
-        var = self.vars[name]
+        var = self.hidden_loopvars[name]
+        self.vars[name] = var
         head, rng = self.loop_header(var)
         var.rng = rng
         var.role = "loop"
         self.loop_stack.append(var)
-        saved = getattr(self, "_while_depth", 0)
+        self.loop_kinds.append("do")
         body = self.block(1, 3)
-        self._while_depth = saved
+        self.loop_kinds.pop()
         self.loop_stack.pop()
         var.rng = None
         var.role = "local"
         var.reserved = True
+        self.vars.pop(name, None)
         self.free_loopvars.insert(0, name)
         self.features.add("loop")
         if len(self.loop_stack) >= 1:
@@ -833,7 +843,9 @@ class Gen:
         self.extra_locals.append(var)
         limit = self.int(0, 3)
         self._while_depth = self.while_depth() + 1
+        self.loop_kinds.append("while")
         body = self.block(1, 2)
+        self.loop_kinds.pop()
         self._while_depth -= 1
         self.features.add("dowhile")
         return ([f"{name} = 0", f"do while ({name} < {limit})"] + body +
@@ -863,7 +875,9 @@ class Gen:
         return [f"if {self.cond()} {inner[0]}"]
 
     def s_exitcycle(self):
-        word = self.pick(["exit", "cycle"])
+        # CYCLE in a DO WHILE would skip the counter increment
+        word = self.pick(["exit", "cycle"]) \
+            if self.loop_kinds[-1] == "do" else "exit"
         self.features.add("codeblock")
         self.features.add(word)
         return [f"if {self.cond()} {word}"]
@@ -1067,7 +1081,7 @@ def gen_helper(gen_outer, num, profile):
         formals.append(frm)
         gen.vars[frm.name] = frm
     lvar = Var("hi", "int", role="local")
-    gen.vars["hi"] = lvar
+    gen.hidden_loopvars["hi"] = lvar
     gen.free_loopvars = ["hi"]
     tvar = Var("ht", "real", role="local")
     gen.vars["ht"] = tvar
@@ -1127,9 +1141,11 @@ def programs(draw, profile=None):
             Var("y", "real"), Var("lg", "log")]
     if prof["arrays"] is None:
         nar = gen.int(2, 5)
-        perm = draw(st.permutations(range(len(ARRAY_POOL))))
+        pool = [v for v in ARRAY_POOL
+                if prof["neg_bounds"] or v.name != "dn"]
+        perm = draw(st.permutations(range(len(pool))))
         chosen = sorted(perm[:nar])
-        arrays = [copy.copy(ARRAY_POOL[i]) for i in chosen]
+        arrays = [copy.copy(pool[i]) for i in chosen]
     else:
         arrays = [copy.copy(v) for v in ARRAY_POOL
                   if v.name in prof["arrays"]]
@@ -1144,11 +1160,11 @@ def programs(draw, profile=None):
     for name in ("i", "j", "l"):
         locs.append(Var(name, "int", role="local"))
         gen.free_loopvars.append(name)
-    # loop variables are only usable (readable) inside their loops
     for var in locs:
-        gen.vars[var.name] = var
-    for name in ("i", "j", "l"):
-        gen.vars[name].reserved = True
+        if var.name in ("i", "j", "l"):
+            gen.hidden_loopvars[var.name] = var
+        else:
+            gen.vars[var.name] = var
     # ---- helpers --------------------------------------------------------
     nhelp = gen.int(*prof["helpers"])
     for num in range(nhelp):
@@ -1156,21 +1172,6 @@ def programs(draw, profile=None):
     # ---- body -----------------------------------------------------------
     # locals are always defined before use
     body = ["t = 0.0", "it = 0"]
-    # hide loop variables from expression generators outside their loops
-    hidden = {}
-    for name in ("i", "j", "l"):
-        hidden[name] = gen.vars.pop(name)
-
-    orig_s_do = gen.s_do
-
-    def s_do_wrapped():
-        name = gen.free_loopvars[0]
-        gen.vars[name] = hidden[name]
-        try:
-            return orig_s_do()
-        finally:
-            gen.vars.pop(name, None)
-    gen.s_do = s_do_wrapped
     nst = gen.int(*prof["nstmts"])
     for _ in range(nst):
         if gen.budget <= 0:
@@ -1191,3 +1192,152 @@ def programs(draw, profile=None):
     if prog.inputs:
         prog.inputs[0]["n"] = draw(st.sampled_from([0, 1, 2, 6]))
     return prog
+
+
+# ----------------------------------------------------------------------
+# statement-level shrinking of a generated program (used for failures that
+# are found by batched compilation, outside Hypothesis)
+# ----------------------------------------------------------------------
+_OPEN = ("do ", "select case", "where (")
+
+
+def _is_open(line):
+    txt = line.strip()
+    if txt.startswith("if ") and txt.endswith(" then"):
+        return True
+    if txt.startswith("do ") or txt.startswith("select case"):
+        return True
+    if txt.startswith("where (") and _balanced_end(txt):
+        return True
+    return False
+
+
+def _balanced_end(txt):
+    """True if a 'where (mask)' line has nothing after the mask."""
+    depth = 0
+    for pos, char in enumerate(txt[6:], 6):
+        if char == "(":
+            depth += 1
+        elif char == ")":
+            depth -= 1
+            if depth == 0:
+                return not txt[pos + 1:].strip()
+    return False
+
+
+def _is_close(line):
+    txt = line.strip()
+    return txt.startswith("end do") or txt.startswith("end if") or \
+        txt.startswith("end select") or txt.startswith("end where")
+
+
+def _is_mid(line):
+    txt = line.strip()
+    return txt.startswith("else") or txt.startswith("case ") or \
+        txt.startswith("case(") or txt.startswith("elsewhere")
+
+
+def statement_spans(lines):
+    """[(start, end_exclusive, depth)] of every complete statement."""
+    spans = []
+    stack = []
+    for pos, line in enumerate(lines):
+        if _is_close(line):
+            start = stack.pop()
+            spans.append((start, pos + 1, len(stack)))
+        elif _is_open(line):
+            stack.append(pos)
+        elif _is_mid(line):
+            continue
+        else:
+            spans.append((pos, pos + 1, len(stack)))
+    return spans
+
+
+_PROLOGUE = re.compile(r"^(t = 0\.0|it = 0|iw\d+ = 0|ht = 0\.0)$")
+
+
+def shrink_prog(prog, still_fails, max_checks=80):
+    """Greedy statement deletion / unwrapping. `still_fails(prog)->bool`."""
+    checks = [0]
+
+    def test(cand):
+        checks[0] += 1
+        try:
+            return still_fails(cand)
+        except Exception:        # a broken candidate is simply not smaller
+            return False
+
+    cur = prog
+    # fewer inputs first
+    for keep in range(len(cur.inputs)):
+        cand = copy.copy(cur)
+        cand.inputs = [cur.inputs[keep]]
+        if len(cur.inputs) > 1 and test(cand):
+            cur = cand
+            break
+    progress = True
+    while progress and checks[0] < max_checks:
+        progress = False
+        spans = sorted(statement_spans(cur.body),
+                       key=lambda s: (s[2], -(s[1] - s[0])))
+        for start, end, _ in spans:
+            if checks[0] >= max_checks:
+                break
+            if end - start == 1 and _PROLOGUE.match(cur.body[start].strip()):
+                continue         # keep the prologue initialisations
+            cand = copy.copy(cur)
+            cand.body = cur.body[:start] + cur.body[end:]
+            if test(cand):
+                cur = cand
+                progress = True
+                break
+            # unwrap: replace a do/if block by its body (first branch)
+            if end - start > 2 and cur.body[start].strip().startswith(
+                    ("if ", "do ")):
+                inner = cur.body[start + 1:end - 1]
+                if not any(_is_mid(ln) and (len(ln) - len(ln.lstrip())) ==
+                           (len(cur.body[start]) -
+                            len(cur.body[start].lstrip())) for ln in inner) \
+                        and cur.body[start].strip().startswith("if "):
+                    cand = copy.copy(cur)
+                    cand.body = cur.body[:start] + \
+                        [ln[2:] for ln in inner] + cur.body[end:]
+                    if test(cand):
+                        cur = cand
+                        progress = True
+                        break
+    # drop helpers that are no longer referenced
+    used = "\n".join(cur.body)
+    keep = [h for h in cur.helpers if f"{h.name}@U@" in used]
+    if len(keep) != len(cur.helpers):
+        cand = copy.copy(cur)
+        cand.helpers = keep
+        if test(cand):
+            cur = cand
+    return cur
+
+
+def text_features(src):
+    """Coarse syntactic features of Fortran source (for bucketing)."""
+    import re
+    low = src.lower()
+    feats = set()
+    if re.search(r"^\s*(else)?where\b", low, re.M):
+        feats.add("where")
+    if "select case" in low:
+        feats.add("select")
+    if re.search(r"\(\s*[^()]*:[^()]*\)", low):
+        feats.add("section")
+    if re.search(r":\s*\(?-?\d+\)?\s*[,)]", low) and \
+            re.search(r":[^,()]*:", low):
+        feats.add("strided")
+    if re.search(r"\b(sum|product|maxval|minval|dot_product)\s*\(", low):
+        feats.add("reduction")
+    if "do while" in low:
+        feats.add("dowhile")
+    if re.search(r"\b(exit|cycle)\b", low):
+        feats.add("exitcycle")
+    if re.search(r"\bcall\b", low):
+        feats.add("call")
+    return feats
